@@ -99,3 +99,51 @@ Definition space_n_samples (s : screen) : Z :=
 Definition space_n_treatments (s : screen) : Z :=
   Z.of_nat (length (sort_uniq Z.compare
                       (filter (fun i => negb (i =? CONTROL_SENTINEL_VALUE)) (map snd (s_tmap s))))).
+
+(* ==== vocabulary of the source-translation link for C01: the id-encoding statements of Screen.__init__ ====
+   (harness/src_functions.py C01_INIT_*, generated file Generated/SrcScreenIds.v, proofs Proofs/C01Source.v)
+   A 2-d numpy array is (shape[1], its rows); every row of a numpy array has that length (a value with a row of
+   another length is not an array: reading past a short row yields the default).  An id array that went through a
+   pandas left merge holds `option Z` (None = NaN).  Each definition is the meaning of ONE numpy call. *)
+Definition arr2 (A : Type) : Type := (nat * list (list A))%type.
+Definition arr2_shape1 {A} (a : arr2 A) : Z := Z.of_nat (fst a).                       (* a.shape[1] *)
+(* a[:, i]: column i; a negative index counts from the end, IndexError (tag 18) outside -shape[1] .. shape[1]-1 *)
+Definition arr2_col {A} (d : A) (a : arr2 A) (i : Z) : result (list A) :=
+  let j := if i <? 0 then i + Z.of_nat (fst a) else i in
+  if (0 <=? j) && (j <? Z.of_nat (fst a)) then Ok (column d (Z.to_nat j) (snd a)) else Err 18.
+(* np.concatenate(l), l a list of 1-d arrays: ValueError (tag 17) for the empty list *)
+Definition np_concat {A} (l : list (list A)) : result (list A) :=
+  match l with [] => Err 17 | _ => Ok (concat l) end.
+(* np.split(a, n), a 1-d: n equal consecutive parts; n = 0 is a ZeroDivisionError, an unequal division or n < 0 a
+   ValueError (tag 19) *)
+Definition np_split {A} (a : list A) (n : Z) : result (list (list A)) :=
+  if n <=? 0 then Err 19
+  else if negb (Z.of_nat (length a) mod n =? 0) then Err 19
+  else let k := Z.to_nat (Z.of_nat (length a) / n) in
+       Ok (map (fun i => firstn k (skipn (i * k) a)) (seq 0 (Z.to_nat n))).
+(* np.vstack(l), l a list of 1-d arrays: they become the rows; ValueError (tag 17 / 20) for no array / unequal lengths *)
+Definition np_vstack {A} (l : list (list A)) : result (arr2 A) :=
+  match l with
+  | [] => Err 17
+  | r :: rest => if forallb (fun x => Nat.eqb (length x) (length r)) rest then Ok (length r, l) else Err 20
+  end.
+(* a.T *)
+Definition arr2_T {A} (d : A) (a : arr2 A) : arr2 A :=
+  (length (snd a), map (fun j => column d j (snd a)) (seq 0 (fst a))).
+
+(* what the id statements of Screen.__init__ store, read back from a constructed screen *)
+Definition tmap_cols3 (m : tmapping) : list name * list Z * list Z :=
+  (map (fun e => fst (fst e)) m, map (fun e => snd (fst e)) m, map snd m).
+Definition nmap_cols2 (m : nmapping) : list name * list Z := (map fst m, map snd m).
+Definition stored_ids (s : screen)
+  : (list name * list Z * list Z) * arr2 (option Z) * list (option Z) * (list name * list Z) * list (option Z) * (list name * list Z) :=
+  (tmap_cols3 (s_tmap s), (s_arity s, map (map Some) (s_tids s)), map Some (s_sids s), nmap_cols2 (s_smap s),
+   map Some (s_pids s), nmap_cols2 (s_pmap s)).
+(* the arguments of a constructor call on rows, as the arrays / mapping tuples Python passes *)
+Definition names_arr (a : nat) (rows : list row) : arr2 name := (a, map (fun r => map fst (r_treats r)) rows).
+Definition doses_arr (a : nat) (rows : list row) : arr2 Z := (a, map (fun r => map snd (r_treats r)) rows).
+Definition tmap_arg_py (tm : option (tmapping * bool)) : option tmap_py := option_map (fun mb => tmap_py_of (fst mb) (snd mb)) tm.
+Definition smap_arg_py (sm : option (nmapping * bool)) : option smap_py := option_map (fun mb => smap_py_of (fst mb) (snd mb)) sm.
+(* np.setdiff1d(a, b): the sorted distinct values of a that are not in b (ExperimentSpace.n_unique_treatments) *)
+Definition np_setdiff1d (a b : list Z) : list Z :=
+  sort_uniq Z.compare (filter (fun x => negb (existsb (Z.eqb x) b)) a).
